@@ -61,7 +61,18 @@ type FuncContract struct {
 	Iterates   []*Iterates
 	Decreases  *Clause
 	GhostEntry []*GhostAssign
+	SiteAsserts []*SiteAssert
 	AssumeLocked []*Clause // protocol assumptions evaluated right after the first guarded Lock (listed as assumptions)
+}
+
+// SiteAssert: `assert[Cxx] after "source text" : expr` -- an assertion over the locals in scope, checked right after the
+// last instruction of the first source line (in the function) that contains the text.
+type SiteAssert struct {
+	Match string
+	Expr  *Expr
+	Text  string
+	Props []string
+	After bool
 }
 
 type GhostAssign struct {
@@ -96,6 +107,12 @@ type TypeContract struct {
 	File   string
 }
 
+type Axiom struct {
+	Scope string
+	Expr  *Expr
+	Text  string
+}
+
 type PureFn struct {
 	Name   string
 	Params []string
@@ -110,6 +127,7 @@ type ContractSet struct {
 	types  map[string]*TypeContract
 	pures  map[string]*PureFn
 	ghosts map[string]*GhostDecl
+	axioms []*Axiom
 	files  []string
 	order  []string
 }
@@ -144,7 +162,7 @@ func (cs *ContractSet) forFunc(fn *ssa.Function) *FuncContract {
 
 var clauseKW = map[string]bool{"func": true, "type": true, "pure": true, "uf": true, "lemma": true, "ghost": true, "requires": true, "ensures": true,
 	"modifies": true, "decreases": true, "loop": true, "iterates": true, "concurrent": true, "props": true, "terminates": true,
-	"noinline": true, "assumelocked": true, "ghostentry": true, "callback": true, "arith": true, "nonnil": true, "guards": true, "invariant": true, "latch": true, "params": true, "results": true, "trusted": true, "purefn": true}
+	"noinline": true, "assert": true, "axiom": true, "assumelocked": true, "ghostentry": true, "callback": true, "arith": true, "nonnil": true, "guards": true, "invariant": true, "latch": true, "params": true, "results": true, "trusted": true, "purefn": true}
 
 var tagRe = regexp.MustCompile(`^(\w+)\[([A-Z0-9, ]+)\]`)
 
@@ -333,7 +351,7 @@ func (cs *ContractSet) LoadContractFile(path string, pkgKey string) error {
 					}
 					c.Exprs = append(c.Exprs, e)
 				}
-			} else if k == "invariant" || k == "decreases" {
+			} else if k == "invariant" || k == "decreases" || k == "step" {
 				e, err := ParseExpr(fs[2])
 				if err != nil {
 					return fail("%v", err)
@@ -372,6 +390,26 @@ func (cs *ContractSet) LoadContractFile(path string, pkgKey string) error {
 			if curF != nil {
 				curF.Terminates = true
 			}
+		case "axiom":
+			e, err := ParseExpr(rest)
+			if err != nil {
+				return fail("%v", err)
+			}
+			cs.axioms = append(cs.axioms, &Axiom{Scope: pkgKey, Expr: e, Text: rest})
+		case "assert":
+			if curF == nil {
+				return fail("assert outside func block")
+			}
+			m := regexp.MustCompile(`^(after|before)\s+"((?:[^"\\]|\\.)*)"\s*:\s*(.*)$`).FindStringSubmatch(rest)
+			if m == nil {
+				return fail(`assert after|before "<source text>" : <expr>`)
+			}
+			e, err := ParseExpr(m[3])
+			if err != nil {
+				return fail("%v", err)
+			}
+			txt, _ := strconv.Unquote(`"` + m[2] + `"`)
+			curF.SiteAsserts = append(curF.SiteAsserts, &SiteAssert{Match: txt, Expr: e, Text: m[3], Props: props, After: m[1] == "after"})
 		case "assumelocked":
 			if curF == nil {
 				return fail("assumelocked outside func block")
